@@ -2,8 +2,8 @@
     unit, list, prod, sumbool, sumor map to OCaml's; nat, positive, N, Z stay Coq datatypes.
     coqc is run from the directory that should receive pegmodel.ml.
     The [x_*] names are the driver's entry points (unique names, so that extraction never renames them). *)
-From Coq Require Import ExtrOcamlBasic.
-From PegV Require Import Model.SetImpl.
+From Coq Require Import ExtrOcamlBasic List.
+From PegV Require Import Model.SetImpl Spec.Syntax Spec.Peg Model.Machine Model.Runtime Model.Analyses Model.Gen.
 Extraction Language OCaml.
 
 Definition x_set_run := SetImpl.run.
@@ -13,5 +13,18 @@ Definition x_set_elements := SetImpl.elements.
 Definition x_set_intersects := SetImpl.intersects.
 Definition x_set_equal := SetImpl.equal.
 
+Definition x_mk_opts := Gen.mk_opts.
+Definition x_run_history := Gen.run_history.
+Definition x_spec_parse := Gen.spec_parse.
+Definition x_first_furthest := Peg.first_furthest.
+Definition x_flat := Syntax.flat.
+Definition x_zero_state := Machine.zero_state.
+Definition x_inline_table := Analyses.inline_table.
+Definition x_asu_rule := Analyses.asu_rule.
+Definition x_count_rules := Analyses.count_rules.
+Definition x_execute := Runtime.execute.
+
 Extraction "pegmodel.ml"
-  x_set_run x_set_has x_set_len x_set_elements x_set_intersects x_set_equal.
+  x_set_run x_set_has x_set_len x_set_elements x_set_intersects x_set_equal
+  x_mk_opts x_run_history x_spec_parse x_first_furthest x_flat x_zero_state
+  x_inline_table x_asu_rule x_count_rules x_execute.
